@@ -34,6 +34,8 @@ def _tables(ctx):
 
 
 def _run(ctx):
+    from .common import array_hazard_sweep
+    array_hazard_sweep(ctx, "R3", ("nsf",), "results then depend on what the caller does with its array between calls")
     lam = sp.Symbol("lam", positive=True)
     rho = sp.Symbol("rho", positive=True)
     w = neutron_world(ctx, energy_dependent=("H1",))
@@ -172,17 +174,6 @@ def _run(ctx):
     wm = spec.compound(q, mm, [b[0], b[0], b[2]], [s[0], s[0], s[2]], rho, lam)
     for k in ("sld_re", "inc_xs", "penetration"):
         eq(ctx, "R2", f"{k}: compound with Fe and Fe2+ counts both", gm[k], wm[k], cs, nonzero=[rho * sum(a * c for a, c in zip(q, mm))])
-    # caller-owned arrays are neither updated in place nor retained by reference
-    from ptstat.taint import caller_array_hazards
-    nfun = 0
-    for qual, fn in ctx.src.funcs.items():
-        if fn.module == "nsf" and isinstance(fn.node, ast.FunctionDef):
-            nfun += 1
-            for why, node in caller_array_hazards(fn.node):
-                ctx.fail("R3", f"{qual}: {why}", f"{ast.unparse(node)[:80]}: results then depend on what the caller does with its array between calls",
-                         f"{ctx.src.where('nsf', node)} {qual}")
-    ctx.ok("R3", "no neutron calculator updates a caller-supplied array in place or keeps a reference to it", site="periodictable/nsf.py",
-           sample={"functions": nfun})
     # R5 missing data
     for label, attrs in (("b_c is None", dict(b_c=None)), ("number density is None", dict(_number_density=None))):
         w2 = neutron_world(ctx)
